@@ -199,8 +199,10 @@ def run_child(spec, hashseed=0, timeout=1800):
     env["PYTHONHASHSEED"] = str(hashseed)
     env["PYTHONPATH"] = boot.VERIF + os.pathsep + env.get("PYTHONPATH", "")
     env["PYTHONDONTWRITEBYTECODE"] = "1"
-    with tempfile.NamedTemporaryFile("w", suffix=".json", delete=False) as f:
-        json.dump(spec, f)
+    import pickle
+
+    with tempfile.NamedTemporaryFile("wb", suffix=".pkl", delete=False) as f:
+        pickle.dump(spec, f)  # pickle, not JSON: scenario dicts have integer mapping keys
         path = f.name
     try:
         p = subprocess.run([boot.VENV_PY, "-m", "pv.traj", path], cwd=boot.VERIF, env=env, capture_output=True, text=True, timeout=timeout)
@@ -213,7 +215,9 @@ def run_child(spec, hashseed=0, timeout=1800):
 
 
 if __name__ == "__main__":
-    spec = json.load(open(sys.argv[1]))
+    import pickle
+
+    spec = pickle.load(open(sys.argv[1], "rb"))
     try:
         out = run(spec)
     except BaseException as e:  # noqa
